@@ -104,8 +104,11 @@ def ambiguous_twin_binding(expr, bound=frozenset()) -> bool:
     from y0.dsl import Fraction, Probability, Product, Sum
 
     if isinstance(expr, Probability):
+        # only copies on the CHILD side are ambiguous ("marginalise every copy" is a reading of outcomes); a copy behind
+        # the conditioning bar is a condition on the bound value under any reading, so Sum[Y](P(Y | Y @ -X)) is in
+        # the domain
         seen = {}
-        for v in tuple(expr.children) + tuple(expr.parents):
+        for v in tuple(expr.children):
             if v.name in bound:
                 seen.setdefault(v.name, set()).add(v)
         return any(len(vs) > 1 for vs in seen.values())
